@@ -3,6 +3,7 @@
 a fresh worktree; the demo must pass with and without, the existing tests must pass, and our check must NOT raise an alarm.
 Kept under /verif/refactors/PID-N/ (ref.diff, refdemo.py, REFNOTES.md, meta.json)."""
 import json
+import os
 import re
 import shutil
 import subprocess
@@ -11,7 +12,7 @@ from pathlib import Path
 
 V = Path(__file__).resolve().parents[1]
 for pid in sys.argv[1:]:
-    src = Path("/tmp/ref") / pid
+    src = Path(os.environ.get("REF_DIR", "/tmp/ref")) / pid
     for n in (1, 2, 3):
         patch, demo = src / ("ref%d.diff" % n), src / ("refdemo%d.py" % n)
         if not patch.exists() or not demo.exists():
